@@ -498,6 +498,38 @@ def fetch_until_data(ck, P, cfg, R="CUT/fetch-until-data"):
               "success with an empty buffer, which gzgets and the gzgetc macro take for end of file", where(f, calls[0].line))
 
 
+def start_recorded(ck, P, cfg, R="GUARD/start-recorded"):
+    """gz_open records where the stream starts for every file opened for reading - `if (state->mode == GZ_READ) state->start =
+    LSEEK(fd, 0, SEEK_CUR)` - whichever way the descriptor was obtained: gzrewind and backward seeks go back to that offset.
+    The position query that feeds `start` is decided by the mode (and the validity of the descriptor) alone; a further condition
+    on another field of the state leaves `start` at 0 for some read handles."""
+    f = P.fn(G + "gzopen_help")
+    if not ck.anchor("fn gz::gzopen_help", f):
+        return
+    ck.use_fn(f)
+    sites = []
+    for c in f.live_calls(r"lseek64$|lseek$"):
+        ats = f.dominating_atoms(c.bb)
+        ss = [sig.sig(a, f) for a in ats]
+        if any("GZ_READ" in s.names and s.rel == "Eq" for s in ss):
+            sites.append((c, ss))
+    if not ck.anchor("position query under mode == GZ_READ in gzopen_help", bool(sites)):
+        return
+    adt = P.adt(G + "GzState") or {}
+    fields = {str(fl.get("name")) for v in adt.get("variants", []) for fl in v.get("fields", [])}
+    if not ck.anchor("fields of gz::GzState", bool(fields)):
+        return
+    for i, (c, ss) in enumerate(sites):
+        tested = set()
+        for s in ss:
+            tested |= {n for n in s.names if n in fields}
+        extra = sorted(tested - {"mode", "fd"})
+        ck.decide(not extra, R, "gzopen_help:start#%d@%s" % (i, cfg), "decided by mode and fd only",
+                  "gzopen_help records the start offset of a read handle only under a further condition on state.%s: handles that fail "
+                  "it keep start = 0, and gzrewind / backward gzseek go to file offset 0 instead of the stream's start" % "/".join(extra),
+                  where(f, c.line))
+
+
 def run(ck):
     # the experimental printf entry points exist only in the gzprintf build (K5)
     P5 = prog("K5")
@@ -522,6 +554,7 @@ def run(ck):
         magic_lookahead(ck, P, cfg)
         reposition_reset(ck, P, cfg)
         compact_order(ck, P, cfg)
+        start_recorded(ck, P, cfg)
     # the gz layer is a port of zlib-ng's gzlib.c / gzread.c / gzwrite.c: conditions, calls and stores of the paired functions
     from .. import condparity
     from .. import guards as _g
